@@ -377,7 +377,9 @@ def execute(scenario):
                     continue
                 if r.get("kind") == "fork":
                     if r.get("exc"):
-                        bad_fork = "copying the running environment ({}) failed: {} {}".format(r["how"], r["exc"], r.get("msg"))
+                        # the property does not promise that an environment can be copied or pickled: a refusal is
+                        # counted, not judged (the floors on the probes below notice if copies stop working)
+                        probe("copy_refused")
                     else:
                         probe("running_environment_copied_by_" + r["how"])
                 elif r.get("kind") == "step" and r.get("clones"):
